@@ -105,7 +105,7 @@ impl Property for C21 {
         Meta {
             id: "C21",
             level: "fault_enumeration",
-            rule: "one evaluation = a real validation of an asset carrying an UPDATE manifest (BuilderIntent::Update signed over an already signed parent; JPEG data/box hash, PNG, MP4, TIFF, WAV, GIF) after one stored-byte fault from C01's complete single-fault list (every position x 4 patterns, truncations, 1-byte insert/delete everywhere, appends, block faults); oracle: Valid/Trusted => the change is confined to the manifest region / the parent's declared exclusions and the report is unchanged. Plus 4 fixed rule-violating update manifests (forbidden action, no parent, two parents, own hard binding) that must fail to sign or read back non-Valid. Distinct = (case, fault)",
+            rule: "one evaluation = a real validation of an asset carrying an UPDATE manifest (BuilderIntent::Update signed over an already signed parent; JPEG data/box hash, PNG, MP4, TIFF, WAV, GIF) after one stored-byte fault from C01's complete single-fault list (every position x 4 patterns, truncations, 1-byte insert/delete everywhere, appends, block faults); oracle: Valid/Trusted => the change is confined to the manifest region / the parent's declared exclusions and the report is unchanged. Plus 4 fixed rule-violating update manifests (forbidden action, no parent, two parents, own hard binding) offered to the Builder, which must fail to sign or read back non-Valid; plus the same rules against a signer gone wrong: a valid update manifest whose assertion is edited (action c2pa.published -> c2pa.converted, parentOf -> inputTo / componentOf, a custom assertion relabelled c2pa.hash.data), the claim's assertion digest repaired and the claim signed again with the same credentials through the SDK's own cose_sign (hook H9), re-embedded by the real handler: never Valid/Trusted; the identical pipeline with a rule-abiding edit is the control and must stay Valid. Distinct = (case, fault)",
             assumptions: &[
                 "for data-hash parents the excluded region on the final asset is the manifest region reported by the handler (cross-checked to contain the store bytes), because the validator re-bases the parent's exclusion onto it",
                 "the space of crafted rule-violating update manifests beyond the four listed is not explored",
@@ -248,6 +248,76 @@ fn rule_violations(rc: &mut RunCtx, variant: u64) -> RunOut {
                     }
                 }
             },
+        }
+    }
+    // the same rules against a signer gone wrong: a valid update manifest whose assertion is
+    // edited, with the claim's digest repaired and the claim signed again with the same
+    // credentials (crate::forge), re-embedded by the real handler
+    let signer = sdk::make_signer("ed25519");
+    let base_def = json!({"title": "u", "assertions": [
+        {"label": "c2pa.actions", "data": {"actions": [{"action": "c2pa.published"}]}},
+        {"label": "org.sim.note14", "data": {"note": "x"}, "created": true}]});
+    c2pa::verif::set_random_seed(Some(hash_str(&format!("c21-forge-{}-{variant}", rc.seed))));
+    let base = match update_sign(&ctx, base_def, fmt, &parent, |_| {}) {
+        Ok(b) => b,
+        Err(e) => {
+            out.probe(&format!("forge:base-update-refused:{e}"));
+            return out;
+        }
+    };
+    let store = c2pa::jumbf_io::load_jumbf_from_memory(fmt.mime(), &base).unwrap_or_default();
+    let lay = crate::forge::layout(&store);
+    let find = |prefix: &str| lay.as_ref().and_then(|l| l.assertions.iter().find(|a| a.0.starts_with(prefix)).map(|a| a.0.clone())).unwrap_or_default();
+    let (actions_l, ingredient_l) = (find("c2pa.actions"), find("c2pa.ingredient"));
+    let reembed = |st: &[u8]| -> Result<Vec<u8>, String> {
+        let mut o = std::io::Cursor::new(Vec::new());
+        c2pa::jumbf_io::save_jumbf_to_stream(fmt.mime(), &mut std::io::Cursor::new(base.clone()), &mut o, st).map_err(|e| err_kind(&e))?;
+        Ok(o.into_inner())
+    };
+    type Forge<'a> = Box<dyn Fn() -> Option<Vec<u8>> + 'a>;
+    let forged: Vec<(&str, bool, Forge)> = vec![
+        // control: the same pipeline with an edit that breaks no rule must stay Valid
+        ("control-allowed-action", false, Box::new(|| crate::forge::edit_assertion_and_resign(&store, &actions_l, b"c2pa.published", b"c2pa.published", signer.as_ref()))),
+        ("forbidden-action", true, Box::new(|| crate::forge::edit_assertion_and_resign(&store, &actions_l, b"c2pa.published", b"c2pa.converted", signer.as_ref()))),
+        ("no-parent", true, Box::new(|| crate::forge::edit_assertion_and_resign(&store, &ingredient_l, b"\x68parentOf", b"\x67inputTo", signer.as_ref()))),
+        ("parent-becomes-component", true, Box::new(|| crate::forge::edit_assertion_and_resign(&store, &ingredient_l, b"\x68parentOf", b"\x6bcomponentOf", signer.as_ref()))),
+        ("own-hard-binding", true, Box::new(|| crate::forge::relabel_and_resign(&store, "org.sim.note14", "c2pa.hash.data", signer.as_ref()))),
+    ];
+    for (i, (name, violating, f)) in forged.iter().enumerate() {
+        let sub = 100 + i as u64;
+        if !rc.want_sub(sub) {
+            continue;
+        }
+        out.evals += 1;
+        out.fault("forged_resigned_update");
+        out.keys.push(hash_str(&format!("forge|{name}|{}", fmt.name())));
+        let Some(st) = f() else {
+            out.probe(&format!("forge:{name}:not-built"));
+            continue;
+        };
+        let r = sdk::guarded(|| reembed(&st).and_then(|a| sdk::read_plain(&ctx, fmt.mime(), &a).map_err(|e| format!("read:{e}"))));
+        match r {
+            Err(p) => out.violate(sub, &format!("panic:{}", p.split('|').next().unwrap_or("?")), "G1 no panic", json!({"case": name, "panic": p})),
+            Ok(Err(e)) => {
+                out.probe(&format!("forge:{name}:err:{}", e.chars().take(40).collect::<String>()));
+                if !violating {
+                    out.harness_error = Some(format!("forge control failed: {e}"));
+                }
+            }
+            Ok(Ok(rep)) if !rep.is_ok_state() => {
+                out.probe(&format!("forge:{name}:invalid"));
+                if !violating {
+                    out.harness_error = Some(format!("forge control not valid: {}", rep.brief()));
+                }
+            }
+            Ok(Ok(rep)) => {
+                if *violating {
+                    out.violate(sub, &format!("update-rule-not-enforced:forged:{name}"), "C21 an update manifest with a forbidden part is never Valid, whoever signed it",
+                        json!({"case": name, "format": fmt.name(), "state": rep.state}));
+                } else {
+                    out.probe(&format!("forge:{name}:valid"));
+                }
+            }
         }
     }
     out.sample = Some(json!({"scenario": "rule-violating update manifests", "format": fmt.name(), "probes": out.probes}));
